@@ -22,6 +22,19 @@ THEOREMS = list(_T08) + [
 REQUIRES_FOR = {"C08_file_level": ["From Coq Require Import List NArith Bool.", "From Coq.Strings Require Import Byte.",
                                    "From MS Require Import Base.Bytes Base.Outcome Base.Prog Webp.Container Webp.Grammar Webp.Vp8l Webp.Vp8lSpec "
                                    "Webp.WebpSpecProofs Props.C08f.", "Open Scope N_scope."]}
+_DREQ = ["From Coq Require Import List NArith Bool.",
+         "From MS Require Import Base.Bytes Base.Outcome Base.Prog Webp.Grammar Props.C08d.", "Import ListNotations.", "Open Scope N_scope."]
+THEOREMS = THEOREMS + [
+    ("C08_D8_is_the_grammar_of_C06", """forall (lossless_ok : N -> N -> bytes -> bool) (inp : input) (w h : N) (c : wchunk) (r : list wchunk),
+  w_name c = gVP8L ->
+  image_ok lossless_ok inp true true w h (c :: r) = None"""),
+    ("C08_vp8l_still_without_flag", """forall (lossless_ok : N -> N -> bytes -> bool) (inp : input) (w h : N) (c : wchunk) (r : list wchunk),
+  w_name c = gVP8L -> vp8l_ok lossless_ok inp (Some (w, h)) c = true ->
+  image_ok lossless_ok inp false false w h (c :: r) = Some r"""),
+]
+REQUIRES_FOR = dict(REQUIRES_FOR, C08_D8_is_the_grammar_of_C06=_DREQ, C08_vp8l_still_without_flag=_DREQ)
+COQ_TARGETS = COQ_TARGETS + ["theories/Props/C08d.vo"]
+COQCHK = COQCHK + ["MS.Props.C08d"]
 
 TRUSTED = [
     "Coq 8.16.1 kernel (coqc; coqchk in the thorough tier); vm_compute only in Examples; no native_compute",
